@@ -49,6 +49,15 @@ func (c *ScriptConn) Read(p []byte) (int, error) {
 	if len(p) == 0 {
 		return 0, nil
 	}
+	if !c.deadline.IsZero() && !time.Now().Before(c.deadline) {
+		// like a socket: a read entered after the deadline fails, whatever is waiting
+		if c.Rec.InHandler || c.Rec.InRoute {
+			c.Rec.AddAux(Ev{"e": "HSock", "k": "timeout"})
+		} else {
+			c.Rec.Add(Ev{"e": "Sock", "k": "timeout"})
+		}
+		return 0, os.ErrDeadlineExceeded
+	}
 	rest := c.Slen - c.pos
 	inH := c.Rec.InHandler || c.Rec.InRoute
 	n := len(p)
